@@ -410,6 +410,12 @@ class ASTPostSimplifyMapper(ASTIdentityMapper):
         else:
             return Block(*new_children)
 
+    def map_ForLoop(self, expr):
+        body = self.rec(expr.body)
+        if isinstance(body, NullASTNode):
+            return NullASTNode()
+        return ForLoop(expr.loop_var_name, expr.lbound, expr.ubound, body)
+
     def map_StatementWrapper(self, expr):
         return StatementWrapper(expr.statement)
 
